@@ -242,6 +242,13 @@ class Interp(ExprMixin):
         return None
 
     def st_Assign(self, st, s):
+        tv = getattr(self.ctx.contract, "truth_vars", None)
+        if tv and isinstance(s.value, ast.BoolOp) and len(s.targets) == 1 and isinstance(s.targets[0], ast.Name) and s.targets[0].id in tv:
+            # contract option: this flag variable is only ever used as a truth value (listed in `truth_vars`, reported in
+            # the evidence); bind it to the truth formula instead of forking on every operand
+            self.ctx.note(f"truth-valued flag variable: {s.targets[0].id}")
+            st.env[s.targets[0].id] = self.eval_cond(st, s.value)
+            return None
         v = self.eval(st, s.value)
         for t in s.targets:
             self.assign(st, t, v)
